@@ -1,0 +1,7 @@
+//go:build !verif
+
+package verifhook
+
+// Morph offers a chain client call to an external monitor. Never handled
+// without the verif build tag.
+func Morph(any, string, ...any) (bool, []any) { return false, nil }
